@@ -460,6 +460,17 @@ class C15(Prop):
                     want = spec_generic(inp["interp"], inp["abis"], plats)
             if got != want:
                 return False, f"{law[:-8]}_tags with platforms={plats!r}: " + first_diff(got, want)
+            # the parameters are Iterables: a tuple, a one-shot iterator and a generator of the same items give the same tags
+            for name, wrap in (("tuple", tuple), ("iterator", lambda l: iter(list(l))), ("generator", lambda l: (x for x in list(l)))):
+                with T.probes(probe):
+                    if law == "cpython_is_spec":
+                        alt = triples(tags.cpython_tags(tuple(inp["ver"]), abis=wrap(inp["abis"]), platforms=wrap(plats)))
+                    elif law == "compatible_is_spec":
+                        alt = triples(tags.compatible_tags(tuple(inp["ver"]), interpreter=inp["interp"], platforms=wrap(plats)))
+                    else:
+                        alt = triples(tags.generic_tags(inp["interp"], abis=wrap(inp["abis"]), platforms=wrap(plats)))
+                if alt != got:
+                    return False, f"{law[:-8]}_tags given a {name} instead of a list (platforms={plats!r}): " + first_diff(alt, got)
             return True, ""
         if law == "no_repeats":
             ver, abis, plats, interp = tuple(inp["ver"]), inp["abis"], inp["plats"], inp["interp"]
